@@ -97,14 +97,18 @@ def run(prop, tier, seed):
         else:
             hist["marker:" + r[1].decode("utf-8", "replace").split(" ")[1].split(":")[0]] += 1
     seen = set()
-    for lv, tag, prog, v, r in fails[:30]:
-        def bad(p, s):
-            return judge(lv, p, run_child(lv, p)) == v
-        sp, _ = O.E.shrink_case(prog, "", bad, budget=40)
+    t_shrink = time.time()
+    for lv, tag, prog, v, r in sorted(fails, key=lambda f: len(f[2]))[:30]:
         ident = "%s:level%d" % (v, lv)
         if ident in seen:
             continue
         seen.add(ident)
+
+        def bad(p, s):
+            return judge(lv, p, run_child(lv, p, timeout=3)) == v
+        sp = prog
+        if time.time() - t_shrink < 60:
+            sp, _ = O.E.shrink_case(prog, "", bad, budget=12)
         rr = run_child(lv, sp)
         V.violation(ident, "optimize(level %d) of %r %s: status %r stdout %r stderr %r" % (lv, sp, v, rr[0], rr[1][:200], rr[2][:200]),
                     dict(program=sp, level=lv, verdict=v, status=str(rr[0]), stdout=rr[1].decode("utf-8", "replace")[:2000],
